@@ -7,8 +7,10 @@ from vlib import hx, unhx, fields, lst, files_req
 
 C03_THMS = ['Theo.C03_checker_sound', 'Theo.C03_wfCheck_sound', 'Theo.C03_structure', 'Theo.C03_gen_wf', 'Theo.C03_compile_wf', 'Theo.C03_compiled_sound']
 C16_THMS = ['Theo.C16_calls_go_down', 'Theo.C16_stack_bounded', 'Theo.C16_stack_bounded_wf',
-            'Theo.C16_compiled_stack_bounded', 'Theo.C16_loop_source_halts', 'Theo.C16_loop_halts', 'Theo.C16_loop_iterations', 'Theo.C16_toSource_distinctLoopIds']
-C01_THMS = ['Theo.C01_never_stuck', 'Theo.C01_halts_same_values', 'Theo.C01_diverges']
+            'Theo.C16_compiled_stack_bounded', 'Theo.C16_compile_loop_halts', 'Theo.C16_loop_source_halts', 'Theo.C16_loop_halts', 'Theo.C16_loop_iterations', 'Theo.C16_toSource_distinctLoopIds']
+C01_THMS = ['Theo.C01_never_stuck', 'Theo.C01_halts_same_values', 'Theo.C01_diverges',
+            'Theo.C01_gen_shape', 'Theo.C01_gen_shape_parsed', 'Theo.C01_gen_halts_same_values', 'Theo.C01_gen_diverges',
+            'Theo.C01_compile_correct', 'Theo.C01_compile_shape', 'Theo.C01_front_end_identifiers']
 C07_THMS = ['Theo.C07_step_trace', 'Theo.C07_no_extra_stops', 'Theo.C07_stepping_stops_at_sites']
 
 
@@ -211,7 +213,7 @@ def check_C03(ctx):
 
 
 def check_C16(ctx):
-    build_all(ctx, ['Theo.Props.C16', 'Theo.Props.C16Loop', 'Theo.Props.C03GenWF'], C16_THMS)
+    build_all(ctx, ['Theo.Props.C16', 'Theo.Props.C16Loop', 'Theo.Props.C03GenWF', 'Theo.Props.C01Compile'], C16_THMS)
     if ctx.harness is None:
         return finish(ctx)
     r = ctx.rnd
@@ -304,7 +306,7 @@ def check_C16(ctx):
 
 
 def check_C01(ctx, thms=None):
-    build_all(ctx, ['Theo.Props.C01'], thms if thms is not None else C01_THMS)
+    build_all(ctx, ['Theo.Props.C01', 'Theo.Props.C01GenShape', 'Theo.Props.C01Compile'], thms if thms is not None else C01_THMS)
     if ctx.harness is None:
         return finish(ctx)
     B = 20000
